@@ -1,10 +1,52 @@
-import TucanModel.Parser
-/-! # C10 — property theorems (see DESIGN.md §5) -/
+import TucanProofs.Lemmas.RejectKind
+import TucanProofs.Lemmas.Sentence
+/-!
+# C10 — the parser accepts exactly the grammar; every rejection is the parser's own exception
+
+The Lean reader (`lex`, `parseTucan`, listener, `toGraph`) is the "independent reference reader written
+from the EBNF" the property names; its grammar tables are regenerated from the executing ANTLR artifact
+on every run and the real parser is compared with it on generated sentences and their single-token edits
+(accept/reject, exception type, graph).  About the reference reader itself:
+-/
 namespace Tucan
 
-/-- the listener's integer conversion reports every failure as the parser's own exception -/
-theorem C10_listenerInt_error_kind (s : Str) (e : PyErr) (h : listenerInt s = .error e) : e = .tucanParser := by
-  unfold listenerInt at h
-  split at h <;> simp_all
+/-- **Every other string is rejected with the parser's own exception type** — never `KeyError`,
+`IndexError`, `ValueError` (over-long integer literals included) or anything else. -/
+theorem C10_reject_kind (s : Str) (e : PyErr) (h : graphFromTucan s = .error e) : e = .tucanParser :=
+  graphFromTucan_error_kind s e h
+
+/-- **The recogniser accepts exactly the sentences of the published grammar**, transcribed rule by rule
+as the inductive relation `Sentence`, and returns exactly their syntax tree. -/
+theorem C10_recogniser_iff_grammar (ts : List Tok) (ast : Ast) : parseTucan ts = some ast ↔ Sentence ts ast :=
+  parseTucan_iff ts ast
+
+/-- an accepted string is a sentence of the grammar (lexically and syntactically) -/
+theorem C10_accepted_is_sentence (s : Str) (g : Graph) (h : graphFromTucan s = .ok g) :
+    ∃ toks ast, lex s = some toks ∧ Sentence toks ast := by
+  unfold graphFromTucan at h
+  cases hl : lex s with
+  | none => simp [hl, bind, Except.bind] at h
+  | some toks =>
+    cases hp : parseTucan toks with
+    | none => simp [hl, hp, bind, Except.bind, pure, Except.pure] at h
+    | some ast => exact ⟨toks, ast, rfl, (parseTucan_iff toks ast).mp hp⟩
+
+/-- the grammar the reference reader implements is the one the executing parser tables encode: the ATN of
+`tucanParser.py` and the text of `tucan.g4` agree on the two formula rules, every other rule has the
+expected shape, and the lexer's literal tokens are the parser's -/
+theorem C10_grammar_tables :
+    (Tables.atnWithCarbon = Tables.g4WithCarbon ∧ Tables.atnWithoutCarbon = Tables.g4WithoutCarbon ∧
+      Tables.atnElementRulesWellShaped = true) ∧
+    Tables.atnRuleShapes = expectedRuleShapes ∧
+    Tables.lexLiterals = Tables.parserLiteralNames :=
+  ⟨atn_matches_g4, atn_rule_shapes, lexer_tables.1⟩
+
+/-- non-vacuity: a concrete string is lexed and recognised, a concrete non-sentence is not -/
+example :
+    lex ['C','2','/','(','1','-','2',')'] =
+      some [.lit ['C'], .lit ['2'], .lit ['/'], .lit ['('], .lit ['1'], .lit ['-'], .lit ['2'], .lit [')']] ∧
+    (parseTucan [.lit ['C'], .lit ['2'], .lit ['/'], .lit ['('], .lit ['1'], .lit ['-'], .lit ['2'], .lit [')']]).isSome = true ∧
+    parseTucan [.lit ['C'], .lit ['/'], .lit ['('], .lit ['1'], .lit ['-'], .lit ['2']] = none := by
+  refine ⟨?_, ?_, ?_⟩ <;> decide +kernel
 
 end Tucan
